@@ -544,8 +544,62 @@ pub fn run_c14(tier: &str, only: Option<String>) -> i32 {
         }
     });
     run.stats.merge(hs);
+    // compiled histories: data written *before* a field was made transient, read by every later
+    // version - whatever the old data holds for that field, the reader's value is the declared
+    // default (only this is asserted here; the rest of the outcome is C03's)
+    {
+        let mut pairs: Vec<(usize, usize, usize)> = Vec::new();
+        for (hi, h) in u.spec.histories.iter().enumerate() {
+            for k in 1..=h.steps.len() {
+                if matches!(h.steps[k - 1], refmodel::evo::HStep::MakeTransient { .. }) {
+                    for w in 0..k {
+                        for r in k..=h.steps.len() {
+                            pairs.push((hi, w, r));
+                        }
+                    }
+                }
+            }
+        }
+        let mut seen = std::collections::HashSet::new();
+        pairs.retain(|(hi, w, r)| seen.insert((u.spec.hist_decl[*hi][*w].clone(), u.spec.hist_decl[*hi][*r].clone())));
+        let sel = run.only.clone();
+        let cs = par_items(&pairs, Some(bridge::rt::hang_limit()), &|_| {}, &|(hi, w, r): &(usize, usize, usize), st: &mut Stats| {
+            let ew = u.get(&u.spec.hist_decl[*hi][*w]);
+            let er = u.get(&u.spec.hist_decl[*hi][*r]);
+            let key = format!("oldhist:{}>{}", ew.name, er.name);
+            if let Some(s) = &sel {
+                if *s != key {
+                    return;
+                }
+            }
+            let Ty::Record(rd) = &er.ty else { return };
+            for v in values(&ew.ty, &refmodel::values::Params { leaf_k: 3, seq_len: 1, elem_k: 2, cap: 24, rec_depth: 1 }) {
+                let Out::Ok(b) = &(ew.enc)(&v, &[Sink::ToByteVec])[0].out else { continue };
+                st.states += 1;
+                st.transitions += 2;
+                st.validated += 1;
+                if let Out::Ok(g) = &(er.dec)(b).out {
+                    for (f, x) in rd.fields.iter().zip(g.items()) {
+                        if let Some(dflt) = &f.transient {
+                            if x != dflt {
+                                st.violate(
+                                    format!("C14 transient-field-takes-a-value-from-older-data type={}", er.name),
+                                    key.clone(),
+                                    json!({"written_by": ew.name, "read_by": er.name, "field": f.name, "declared_default": val_json(dflt), "decoded": val_json(x), "bytes": hex(b)}),
+                                );
+                                return;
+                            }
+                        }
+                    }
+                    st.bump("older-data:transient-field-is-default");
+                    st.nontrivial += 1;
+                }
+            }
+        });
+        run.stats.merge(cs);
+    }
     run.stats.add("histories_ending_in_made_transient", hitems.len() as u64);
-    run.rule = "every declaration of the universe with transient fields (every position, 1-3 fields) or transient constructors x every value: bytes equal the bytes of the value with transients reset; decode yields the declared defaults (chosen different from every enumerated value); transient constructors give SerializingTransientConstructor naming type and constructor through all six sinks; every distinct history prefix ending in FieldMadeTransient (dynamic driver) encodes and round-trips".into();
+    run.rule = "every declaration of the universe with transient fields (every position, 1-3 fields) or transient constructors x every value: bytes equal the bytes of the value with transients reset; decode yields the declared defaults (chosen different from every enumerated value); transient constructors give SerializingTransientConstructor naming type and constructor through all six sinks; every distinct history prefix ending in FieldMadeTransient (dynamic driver) encodes and round-trips; for every compiled history with a FieldMadeTransient step, data written by every version before the step and read by every version after it leaves the declared default in the transient field".into();
     run.bounds = json!({"history_depth": depth});
     run.finish()
 }
